@@ -51,6 +51,20 @@ SUITES["writer"] = dict(
     batches={"quick": 8, "thorough": 16}, timeout={"quick": 400, "thorough": 3000},
 )
 
+SUITES["wire"] = dict(
+    test="TestWire", coq_module="Cases.WireCase", case_type="wi_case", eval="eval_wi_case", needs_binary=True,
+    cols=["diff_fwd", "diff_resp", "mon_c01_req", "mon_c01_resp", "mon_c01_stream", "mon_c16_present", "mon_c16_equal",
+          "mon_c16_echo", "mon_c16_fresh", "mon_c16_disabled", "mon_c17_gate", "mon_c17_order", "cls_interim",
+          "nt_c01", "nt_c16", "nt_c17"],
+    batches={"quick": 8, "thorough": 16}, timeout={"quick": 400, "thorough": 3000},
+)
+
+SUITES["chain"] = dict(
+    test="TestChain", coq_module="Cases.ChainCase", case_type="ch_case", eval="eval_ch_case", needs_binary=True,
+    cols=["diff", "mon_fail_closed", "mon_order", "mon_gate", "nt_c17"],
+    batches={"quick": 4, "thorough": 16}, timeout={"quick": 300, "thorough": 3000},
+)
+
 PROPS = {
     "C09": dict(
         props_file="Props/C09.v",
@@ -284,6 +298,72 @@ PROPS["C15"] = dict(
                "simulation proof is not done; the 10 MB buffering cap is only exercised in the thorough tier.",
     level_note=_WR_NOTE, trusted_base=["Model/RespWriter.v (hand-written; tied by the writer suite incl. the direct exchange)"],
     assumptions=["gunzip(gzip(b)) = b (compress/gzip)", "HTTP/1.1 over loopback sockets"],
+)
+
+_WI_NOTE = ("Trusted: Coq kernel, harness (raw TCP client, scripted backends, process control of the real binary), go2coq for the "
+            "structural facts. Model/Proxy.v contains a hand model of what httputil.ReverseProxy / net/http do to a request and a response "
+            "(hop-by-hop removal, X-Forwarded-For, path join, interim responses); it is compared with the real binary on every exchange "
+            "of every run. The configured header names reach the model canonicalised and trimmed by Go (http.CanonicalHeaderKey).")
+_WI_TRUST = ["Model/Proxy.v (hand-written; tied by the wire suite on the real cmd/helios binary built from the current tree)",
+             "go2coq structural translators (Gen/Wrappers.v, Gen/ProxyFacts.v)"]
+PROPS["C01"] = dict(
+    props_file="Props/C01.v", gen=["Wrappers", "ProxyFacts"],
+    suites=[dict(suite="wire", corr=["diff_fwd", "diff_resp"], monitors=["mon_c01_req", "mon_c01_resp", "mon_c01_stream"],
+                 classifiers={}, nontrivial="nt_c01")],
+    rule="the real cmd/helios binary (built from the current tree, one process per generated configuration: 5 strategies, 1-2 backends, "
+         "backend base paths, ID features on/off, plugin chains of length 0..5, handler timeout set or not) in front of scripted backends "
+         "over real sockets; 9 methods, 13 paths (escaped, dot segments, double slash, long), 9 query forms, multi-valued / empty / "
+         "long / non-ASCII headers, Connection-listed and fixed hop-by-hop headers, Accept-Encoding and User-Agent present or absent, bodies "
+         "0..100000 in both framings; backend statuses 200..503 incl. 204/304, interim 103 responses, missing Content-Type, duplicate "
+         "headers, declared or chunked bodies in 1..3 segments up to 64 KiB, flushed segments with a backend-side barrier (the next "
+         "segment is only sent once the client has the previous one); every exchange is also made directly to the backend; "
+         "non-trivial = proxied exchange with a body, a non-200 status or streaming; distinct = by case hash",
+    level_text="PARTIAL. Theorems over the model of the stack (ID middleware o plugin chain o balancer o ReverseProxy): request line, body "
+               "length and every end-to-end header reach the backend unchanged, hop-by-hop headers are dropped, X-Forwarded-For has one value; "
+               "status / body / framing / end-to-end response headers are the backend's; any stack of the response-writer wrappers present in "
+               "the source forwards Flush and Hijack (table regenerated by go2coq), and the source facts the model relies on "
+               "(DisableCompression, no ModifyResponse, handler layers) are re-derived from the source on every run. Tie: the real binary "
+               "over sockets, backend view and client view compared with the model and with a direct exchange. The byte relay itself is "
+               "net/http / httputil runtime behaviour the model cannot exhibit.",
+    level_note=_WI_NOTE, trusted_base=_WI_TRUST,
+    assumptions=["HTTP/1.1 over loopback; HTTP/2, TLS and trailers not exercised", "client address 127.0.0.1"],
+)
+PROPS["C16"] = dict(
+    props_file="Props/C16.v",
+    suites=[dict(suite="wire", corr=["diff_fwd", "diff_resp"],
+                 monitors=["mon_c16_present", "mon_c16_equal", "mon_c16_echo", "mon_c16_fresh", "mon_c16_disabled"],
+                 classifiers={}, nontrivial="nt_c16")],
+    rule="same runs as C01: default and custom header names (also with surrounding blanks in the configuration), both features on/off "
+         "independently, 12 client-supplied values (empty, blanks, padded, NBSP / EM SPACE edges, 200 chars, punctuation, two values), "
+         "backends that set an ID header themselves or send 103 Early Hints first, and every response path: proxied, custom-auth 401, "
+         "size_limit 413, limiter 429, no healthy backend 503; every generated ID of a run is checked for its format and for "
+         "duplicates; non-trivial = client-supplied ID, a non-proxied path or custom names; distinct = by case hash",
+    level_text="Theorems over the model for every configuration, chain, balancer phase and request: the ID header is pre-set with one "
+               "value on every response path and survives the backend's response incl. interim responses; that value is the client's "
+               "trimmed one when non-blank, else a generated one; the backend sees exactly that value; a disabled feature leaves request and "
+               "response untouched; the generator is injective in its random bytes. Tie: the real binary over sockets, both directions.",
+    level_note=_WI_NOTE, trusted_base=_WI_TRUST,
+    assumptions=["crypto/rand yields distinct 12-byte draws (uniqueness reduces to it; duplicates are looked for in every run)",
+                 "a header the client itself lists in Connection is hop-by-hop and not forwarded"],
+)
+PROPS["C17"] = dict(
+    props_file="Props/C17.v",
+    suites=[dict(suite="chain", corr=["diff"], monitors=["mon_fail_closed", "mon_order", "mon_gate"], classifiers={}, nontrivial="nt_c17"),
+            dict(suite="wire", corr=["diff_fwd"], monitors=["mon_c17_gate", "mon_c17_order"], classifiers={}, nontrivial="nt_c17")],
+    rule="plugins.BuildChain on chains of length 0..7 over the six built-ins and a tracing probe plugin registered through RegisterBuiltin "
+         "(sub-multisets and permutations, repeated plugins with different options), valid and invalid option payloads per plugin "
+         "(wrong type, null, zero / negative / fractional numbers as int and float, missing keys, misspelt keys), unknown and misspelt "
+         "names, plugins disabled; one request (API key right / wrong / absent / blank, declared length around the limits) through every "
+         "built chain with the probes recording enter / reject / exit; the real binary started on a sample of the chains (must exit without "
+         "listening iff the chain is invalid); plus the wire suite: two headers-plugins writing the same key, rejecting plugins at "
+         "every position; non-trivial = length >= 2, an invalid chain or a rejecting plugin; distinct = by case hash",
+    level_text="Theorems for every chain: BuildChain's loop nests the first listed plugin outermost; with no rejection the plugins are entered "
+               "in the configured order, then the backend, then left in reverse; the first rejecting plugin hides the request from all later "
+               "plugins and the backend; a handler exists iff every entry is registered and its options are accepted (fail closed). Tie: real "
+               "BuildChain + probe traces, the real binary's start-up, and the full stack over sockets.",
+    level_note="Trusted: Coq kernel, harness, Model/Chain.v (factory option rules written from the plugin sources; tied by the chain suite).",
+    trusted_base=["Model/Chain.v (hand-written; tied by the chain suite)", "Model/Proxy.v chain_request (tied by the wire suite)"],
+    assumptions=["option maps as yaml.v3 / Go deliver them (int, float64, string, list, map, nil)"],
 )
 
 # properties not claimed, each with a one-line reason (kept current as checks are added)
